@@ -1,9 +1,15 @@
 package transcode
 
 import (
+	"context"
 	"fmt"
 	"strconv"
 	"strings"
+	"time"
+
+	"github.com/gobwas/ws"
+	"github.com/gobwas/ws/wsutil"
+	"google.golang.org/protobuf/encoding/protojson"
 
 	"google.golang.org/protobuf/proto"
 	"google.golang.org/protobuf/reflect/protoreflect"
@@ -11,6 +17,7 @@ import (
 	"verif/internal/mon"
 	"verif/internal/textref"
 	"verif/internal/vschema"
+	"verif/internal/wire"
 )
 
 // project returns a message holding only the field reached by fds, with the
@@ -113,7 +120,7 @@ func c07Once(e *env, c *Case, o *outcome, md protoreflect.MessageDescriptor, fds
 	}
 	got := project(calls[0].msg, fds)
 	if !proto.Equal(got, exp) {
-		by := "other"
+		by := "other:" + kindClass(fds[len(fds)-1])
 		if proto.Equal(got, project(vschema.NewMsg(md), fds)) {
 			by = "none(capture-lost)"
 		}
@@ -142,7 +149,7 @@ func c07Once(e *env, c *Case, o *outcome, md protoreflect.MessageDescriptor, fds
 
 var (
 	c07QueryVariants = []string{"none", "proto-name", "json-name", "twice", "before-other", "after-other"}
-	c07BodyVariants  = []string{"none", "json", "protobuf", "json+gzip"}
+	c07BodyVariants  = []string{"none", "json", "protobuf", "json+gzip", "json-unrelated", "protobuf-unrelated"}
 )
 
 // benignField finds a string field that is neither path-bound nor part of the
@@ -257,6 +264,12 @@ func (g *gen) c07Case(p *plan, v pathVar, idx int, qv, bv string, ex c07Extra) (
 			}
 		}
 		return "", fmt.Errorf("no competing value for %s", v.field)
+	}
+	if alt, ok := bytesTextVariant(p.in, v, P, idx); ok {
+		// same bytes in another base64 spelling (std / url-safe alphabet,
+		// padded / unpadded); the expected value stays the protojson reading
+		P = alt
+		texts[v.field] = alt
 	}
 	c := &Case{Prop: "C07", Kind: "c07", Rule: p.rule, Field: v.field, Text: P, Compete: map[string]string{}}
 	q := reqSpec{Verb: reqVerb(p.rule), Path: p.instantiate(texts)}
@@ -379,26 +392,53 @@ func (g *gen) c07Case(p *plan, v pathVar, idx int, qv, bv string, ex c07Extra) (
 	}
 	q.RawQuery = encodeQuery(query)
 	if bv != "none" {
-		inBody := p.rule.Body == "*" || (p.body != nil && strings.HasPrefix(v.field, p.bodyPath()+"."))
-		if !inBody {
+		if p.rule.Body == "" {
 			return nil, nil
 		}
-		Qb, err := other(5)
-		if err != nil {
-			return nil, err
+		inBody := p.rule.Body == "*" || (p.body != nil && strings.HasPrefix(v.field, p.bodyPath()+"."))
+		unrelated := strings.HasSuffix(bv, "-unrelated")
+		if !inBody && !unrelated {
+			return nil, nil
 		}
-		c.Compete["body"] = Qb
-		full, err := onlyField(p.in, v.fds, Qb)
-		if err != nil {
-			return nil, err
+		var bodyMsg proto.Message
+		if unrelated {
+			// a body that does not name the bound field at all
+			bodyMsg = vschema.NewMsg(p.in)
+			if p.body != nil {
+				bodyMsg = vschema.NewMsg(p.body[len(p.body)-1].Message())
+			}
+		} else {
+			Qb, err := other(5)
+			if err != nil {
+				return nil, err
+			}
+			c.Compete["body"] = Qb
+			full, err := onlyField(p.in, v.fds, Qb)
+			if err != nil {
+				return nil, err
+			}
+			bodyMsg = full
+			if p.body != nil {
+				val, _ := getPath(full.ProtoReflect(), p.body)
+				bodyMsg = val.Message().Interface()
+			}
 		}
-		bodyMsg := full
-		if p.body != nil {
-			val, _ := getPath(full.ProtoReflect(), p.body)
-			bodyMsg = val.Message().Interface()
+		if ex.siblings == 0 && ex.many == 0 {
+			// bodies of varying sizes: a filler in some other string field
+			prefix := p.bodyPrefix()
+			fs := bodyMsg.ProtoReflect().Descriptor().Fields()
+			for i := 0; i < fs.Len(); i++ {
+				fd := fs.Get(i)
+				if fd.Kind() == protoreflect.StringKind && !fd.IsList() && fd.ContainingOneof() == nil && !p.isPathVar(prefix+string(fd.Name())) {
+					if n := []int{0, 20, 300, 6000, 70}[g.n%5]; n > 0 {
+						bodyMsg.ProtoReflect().Set(fd, protoreflect.ValueOfString(strings.Repeat("f", n)))
+					}
+					break
+				}
+			}
 		}
 		enc := bodyEnc{ctype: "application/json", jsonFl: g.n % 4}
-		switch bv {
+		switch strings.TrimSuffix(bv, "-unrelated") {
 		case "protobuf":
 			enc = bodyEnc{ctype: []string{"application/protobuf", "application/octet-stream"}[g.n%2]}
 		case "json+gzip":
@@ -422,7 +462,7 @@ func (g *gen) c07Case(p *plan, v pathVar, idx int, qv, bv string, ex c07Extra) (
 	return c, nil
 }
 
-const ruleC07 = "every rule of the C03 catalogue with at least one path variable (vf.Req, ComplexRequest and the real larking.testpb annotations incl. Files.UploadDownload; top-level, nested and doubly nested fields; typed, enum, oneof and well-known-type variables; body '*', body <field>, no body). For every variable and several captures: competing, different values for the same field through the query string (proto name, JSON name, the key twice, before / after another key) and / or the body (JSON, protobuf, gzip JSON; body '*' or a body field that contains the variable), all combinations. In addition, for every variable on a nested field: 1-3 query parameters on same-typed sibling sub-messages (vf.Req sub / osub, ComplexRequest nested / oneof_nested; the sibling's field of the same name first) before / after the competing key, x query x body competitors; and for every variable: a repeated query field of 10, 63, 64, 65, 200, 1000 elements next to the competitors. These requests are served 4 times each (query parameters are applied in map order). Oracle: the handler's value of the field equals the protojson value of the path capture, and - for the cases with non-competing parameters on rules without body '*' - the whole message equals the capture(s) plus every parameter the client sent; a request rejected with an error status is allowed. distinct = (rule, variable, query variant, body variant, sibling / list-size variant) of dispatched requests that kept the capture"
+const ruleC07 = "every rule of the C03 catalogue with at least one path variable (vf.Req, ComplexRequest and the real larking.testpb annotations incl. Files.UploadDownload; top-level, nested and doubly nested fields; typed, enum, oneof and well-known-type variables; body '*', body <field>, no body). For every variable and several captures: competing, different values for the same field through the query string (proto name, JSON name, the key twice, before / after another key) and / or the body (JSON, protobuf, gzip JSON; body '*' or a body field that contains the variable), all combinations. In addition, for every variable on a nested field: 1-3 query parameters on same-typed sibling sub-messages (vf.Req sub / osub, ComplexRequest nested / oneof_nested; the sibling's field of the same name first) before / after the competing key, x query x body competitors; and for every variable: a repeated query field of 10, 63, 64, 65, 200, 1000 elements next to the competitors. These requests are served 4 times each (query parameters are applied in map order). Oracle: the handler's value of the field equals the protojson value of the path capture, and - for the cases with non-competing parameters on rules without body '*' - the whole message equals the capture(s) plus every parameter the client sent; a request rejected with an error status is allowed. The catalogue includes variables of every scalar kind and bytes (top-level and nested) on rules that map a body; bytes captures are spelled std / url-safe, padded / unpadded; bodies carry the competing value or do not name the field at all, with fillers of 0-6000 bytes. WebSocket transport (real loopback listener through larking.NewServer): websocket-kind bindings on bidi methods (vf.Req top-level / nested / typed / bytes / multi-segment variables, body '*' and body field; the real testpb ChatRoom.Chat) with the competing value in the query string, in the first frame and / or in later frames (1-3 frames, each acknowledged by the handler): the first message the handler receives must carry the capture. distinct = (rule, variable, query variant, body variant, sibling / list-size variant | websocket frame variant) of dispatched requests that kept the capture"
 
 // RunC07 is the path-bound-fields-are-authoritative check.
 func RunC07(r *mon.Run) {
@@ -501,6 +541,279 @@ func RunC07(r *mon.Run) {
 				for ci, comb := range [][2]string{{"proto-name", "none"}, {"none", "json"}, {"proto-name", "protobuf"}, {"none", "none"}} {
 					pos := []string{"before", "after"}[(si+ci)%2]
 					do(g.c07Case(p, v, 11+si, comb[0], comb[1], c07Extra{many: n, sibPos: pos}))
+				}
+			}
+		}
+	}
+	// the same precedence over the WebSocket transport
+	runWS(r, g)
+}
+
+// bytesTextVariant re-spells the canonical base64 text of a bytes capture:
+// unpadded, url-safe alphabet, url-safe unpadded (all accepted by proto3
+// JSON). ok is false for other kinds or when the variant is not path-safe.
+func bytesTextVariant(md protoreflect.MessageDescriptor, v pathVar, canonical string, idx int) (string, bool) {
+	fd := v.fds[len(v.fds)-1]
+	if fd.Kind() != protoreflect.BytesKind || fd.IsList() || len(v.pat) != 1 {
+		return "", false
+	}
+	t := canonical
+	switch idx % 4 {
+	case 0:
+		return "", false
+	case 1:
+		t = strings.TrimRight(t, "=")
+	case 2:
+		t = strings.NewReplacer("+", "-", "/", "_").Replace(t)
+	case 3:
+		t = strings.TrimRight(strings.NewReplacer("+", "-", "/", "_").Replace(t), "=")
+	}
+	if t == canonical || !pathSafe(t) {
+		return "", false
+	}
+	a, e1 := onlyField(md, v.fds, t)
+	b, e2 := onlyField(md, v.fds, canonical)
+	if e1 != nil || e2 != nil || !proto.Equal(a, b) {
+		return "", false
+	}
+	return t, true
+}
+
+// ------------------------------------------------------------ WebSocket
+
+// wsRules are websocket-kind bindings (bidi methods) with path variables and
+// a body mapping, plus the real larking.testpb ChatRoom.Chat annotation.
+func wsRules() (dynamic []RuleSpec, real []RuleSpec) {
+	ws := func(id, tmpl, body string) RuleSpec {
+		return RuleSpec{ID: id, In: "vf.Req", Out: "vf.Rsp", Verb: "WEBSOCKET", Tmpl: tmpl, Body: body}
+	}
+	dynamic = []RuleSpec{
+		ws("ws:var-top+body-star", "/w1/{a}", "*"),
+		ws("ws:var-nested+body-sub", "/w2/{sub.a}", "sub"),
+		ws("ws:var-typed-deep+body-star", "/w3/{n}/{sub.deep.s}", "*"),
+		ws("ws:var-bytes-enum+body-star", "/w4/{y}/{e}", "*"),
+		ws("ws:var-multiseg+body-star", "/w5/{b=rooms/*}", "*"),
+	}
+	real = []RuleSpec{{ID: "testpb:Chat:WEBSOCKET /v1/{name=rooms/*}", Svc: "larking.testpb.ChatRoom", Method: "Chat",
+		In: "larking.testpb.ChatMessage", Out: "larking.testpb.ChatMessage", Verb: "WEBSOCKET", Tmpl: "/v1/{name=rooms/*}", Body: "*"}}
+	return
+}
+
+const wsTimeout = 10 * time.Second
+
+// execC07WS runs one precedence case over a real WebSocket connection: the
+// first message the handler receives must carry the path capture, whatever
+// the query string and the frames (first or later) say.
+func execC07WS(e *env, c *Case) (o outcome) {
+	md := vschema.Msg(c.Rule.In)
+	fds := textref.Resolve(md, strings.Split(c.Field, "."))
+	if fds == nil {
+		o.inconcl = "bad case: field " + c.Field
+		return
+	}
+	exp, err := onlyField(md, fds, c.Text)
+	if err != nil {
+		o.inconcl = "bad case: reference rejects the capture: " + err.Error()
+		return
+	}
+	srv, err := e.server()
+	if err != nil {
+		o.inconcl = "harness: cannot start listener: " + err.Error()
+		return
+	}
+	e.rec.take()
+	ctx, cancel := context.WithTimeout(context.Background(), wsTimeout)
+	defer cancel()
+	u := "ws://" + srv.Addr + c.Req.Path
+	if c.Req.RawQuery != "" {
+		u += "?" + c.Req.RawQuery
+	}
+	conn, err := wire.WSDial(ctx, u, nil)
+	if err != nil {
+		// the upgrade was refused: a rejected conflicting request is allowed
+		o.count("c07_ws_upgrade_refused_(allowed)")
+		return
+	}
+	defer conn.Close()
+	conn.SetDeadline(time.Now().Add(wsTimeout))
+	delivered := 0
+	for _, f := range c.Frames {
+		if err := wsutil.WriteClientText(conn, []byte(f)); err != nil {
+			break
+		}
+		// the handler acknowledges every message: wait for it
+		if _, err := wsutil.ReadServerText(conn); err != nil {
+			break
+		}
+		delivered++
+	}
+	ws.WriteFrame(conn, ws.MaskFrameInPlace(ws.NewCloseFrame(ws.NewCloseFrameBody(ws.StatusNormalClosure, "")))) //nolint:errcheck
+	calls := e.rec.take()
+	if strings.Contains(srv.ErrLog(), "panic serving") {
+		o.count("c07_panics_left_to_C09")
+		return
+	}
+	if len(calls) == 0 {
+		o.count("c07_ws_first_frame_rejected_(allowed)")
+		return
+	}
+	o.evals = len(c.Frames) - 1
+	got := project(calls[0].msg, fds)
+	if !proto.Equal(got, exp) {
+		by := "other:" + kindClass(fds[len(fds)-1])
+		if proto.Equal(got, project(vschema.NewMsg(md), fds)) {
+			by = "none(capture-lost)"
+		}
+		for _, ch := range []string{"query", "body"} {
+			if t, ok := c.Compete[ch]; ok {
+				if m, err := onlyField(md, fds, t); err == nil && proto.Equal(got, m) {
+					by = ch
+					break
+				}
+			}
+		}
+		o.add("c07:path-bound-overridden:by="+by+":websocket", fmt.Sprintf("websocket rule %s body=%q: ws %s?%s, frames %q (competing %s): path-bound field %s was captured as %q but the first message the handler received has %s (whole message: %s)",
+			c.Rule.Tmpl, c.Rule.Body, c.Req.Path, c.Req.RawQuery, c.Frames, c.Via, c.Field, c.Text, jsonOf(got), jsonOf(calls[0].msg)))
+		return
+	}
+	o.distinct = "c07|ws|" + c.Rule.ID + "|" + c.Field + "|" + c.Via
+	o.count("c07_ws_first_message_kept_capture")
+	if delivered > 1 {
+		o.count("c07_ws_later_frames_delivered")
+	}
+	return
+}
+
+// wsCase builds one WebSocket case: qv as in c07Case; first / later say
+// whether the first frame and a later frame name the bound field.
+func (g *gen) wsCase(p *plan, v pathVar, idx int, qv string, first, later bool, nFrames int) (*Case, error) {
+	base := vschema.NewMsg(p.in)
+	texts, err := p.fit(g.rng, base, idx)
+	if err != nil {
+		return nil, err
+	}
+	P := texts[v.field]
+	if alt, ok := bytesTextVariant(p.in, v, P, idx); ok {
+		P, texts[v.field] = alt, alt
+	}
+	other := func(k int) (string, error) {
+		for tries := 0; tries < 50; tries++ {
+			t, err := p.pathTextFor(g.rng, v, idx+7+k+tries)
+			if err != nil {
+				return "", err
+			}
+			if !canonicalFor(v.fds, t) {
+				continue
+			}
+			a, e1 := onlyField(p.in, v.fds, t)
+			b, e2 := onlyField(p.in, v.fds, P)
+			if e1 == nil && e2 == nil && !proto.Equal(a, b) {
+				return t, nil
+			}
+		}
+		return "", fmt.Errorf("no competing value for %s", v.field)
+	}
+	inBody := p.rule.Body == "*" || (p.body != nil && strings.HasPrefix(v.field, p.bodyPath()+"."))
+	if (first || later) && !inBody {
+		return nil, nil
+	}
+	c := &Case{Prop: "C07", Kind: "c07-ws", Rule: p.rule, Field: v.field, Text: P, Compete: map[string]string{}}
+	c.Req = reqSpec{Verb: "GET", Path: p.instantiate(texts)}
+	if qv != "none" {
+		Q, err := other(0)
+		if err != nil {
+			return nil, err
+		}
+		key := keyOf(v.fds, qv == "json-name")
+		if qv == "json-name" && key == keyOf(v.fds, false) {
+			return nil, nil
+		}
+		c.Compete["query"] = Q
+		c.Req.RawQuery = encodeQuery([]kv{{key, Q}})
+	}
+	frame := func(names bool, k int) (string, error) {
+		var bodyMsg proto.Message = vschema.NewMsg(p.in)
+		if names {
+			Qb, err := other(5)
+			if err != nil {
+				return "", err
+			}
+			if k == 0 {
+				c.Compete["body"] = Qb
+			}
+			if bodyMsg, err = onlyField(p.in, v.fds, Qb); err != nil {
+				return "", err
+			}
+		}
+		if p.body != nil {
+			if val, ok := getPath(bodyMsg.ProtoReflect(), p.body); ok {
+				bodyMsg = val.Message().Interface()
+			} else {
+				bodyMsg = vschema.NewMsg(p.body[len(p.body)-1].Message())
+			}
+		}
+		b, err := protojson.MarshalOptions{UseProtoNames: (g.n+k)%2 == 0}.Marshal(bodyMsg)
+		return string(b), err
+	}
+	for k := 0; k < nFrames; k++ {
+		f, err := frame((k == 0 && first) || (k > 0 && later), k)
+		if err != nil {
+			return nil, err
+		}
+		c.Frames = append(c.Frames, f)
+	}
+	g.n++
+	c.Via = fmt.Sprintf("websocket,query=%s,first-frame-names-field=%v,later-frame-names-field=%v,frames=%d", qv, first, later, nFrames)
+	c.Class = p.rule.bodyShape() + ":" + c.Via
+	return c, nil
+}
+
+// runWS runs the precedence matrix over the WebSocket transport.
+func runWS(r *mon.Run, g *gen) {
+	dyn, real := wsRules()
+	envD, err := buildDynamic(dyn, "")
+	if err != nil {
+		r.Inconclusive("harness: websocket rules: " + err.Error())
+		return
+	}
+	defer envD.close()
+	envR, err := buildTestpb("")
+	if err != nil {
+		r.Inconclusive("harness: " + err.Error())
+		return
+	}
+	defer envR.close()
+	for _, rule := range append(append([]RuleSpec(nil), dyn...), real...) {
+		p, err := newPlan(rule)
+		if err != nil {
+			r.Inconclusive("harness: " + err.Error())
+			continue
+		}
+		e := envD
+		if rule.Svc != "" {
+			e = envR
+		}
+		for _, v := range p.vars {
+			for k := 0; k < r.Pick(2, 12); k++ {
+				for _, qv := range []string{"none", "proto-name", "json-name"} {
+					for _, fl := range [][2]bool{{false, false}, {true, false}, {false, true}, {true, true}} {
+						nFrames := 1 + (k+len(qv))%3
+						if fl[1] && nFrames < 2 {
+							nFrames = 2
+						}
+						if qv == "none" && !fl[0] && !fl[1] {
+							continue
+						}
+						c, err := g.wsCase(p, v, 2+5*k, qv, fl[0], fl[1], nFrames)
+						if err != nil {
+							r.Count("generator_rejected_case", 1)
+							r.Set("generator_reject_example", rule.ID+": "+err.Error())
+							continue
+						}
+						if c != nil {
+							apply(r, c, execCase(e, c))
+						}
+					}
 				}
 			}
 		}
